@@ -42,7 +42,7 @@ var c18StageParams = []string{"TSUM", "BAS", "VSCHWELL", "DAYL", "DLBAS", "DRYSW
 var c18PartParams = []string{"PRO", "DEAD"}
 
 // genOvr draws one override (valid or deliberately out of range) for the given parameter file content.
-func genOvr(r *Rng, cp *hermes.CropParam, kind int, name string, invalid bool) *cropOvr {
+func genOvr(r *Rng, cp *hermes.CropParam, kind int, name string, invalid bool, earlyStages bool) *cropOvr {
 	o := &cropOvr{Valid: !invalid}
 	nst, nko := cp.NRENTW, cp.NRKOM
 	switch kind {
@@ -96,6 +96,9 @@ func genOvr(r *Rng, cp *hermes.CropParam, kind int, name string, invalid bool) *
 		o.Value = roundSig(v)
 	case 1:
 		st := r.Range(1, nst)
+		if earlyStages && r.Bool(0.6) {
+			st = r.Range(1, 2) // a re-sown permanent crop is re-initialised from the first two stages
+		}
 		badStage := invalid && nst < 9 && r.Bool(0.4)
 		if badStage {
 			st = r.Range(nst+1, 9)
@@ -299,7 +302,10 @@ func runC18Case(tier string, seed uint64, idx int, keepDir string) *CaseResult {
 		if k > 0 {
 			kd = kinds[r.Intn(len(kinds))]
 		}
-		o := genOvr(r, &cp, kd.kind, kd.name, k == badAt)
+		if bool(cp.DAUERKULT) && k == 0 && r.Bool(0.4) {
+			kd = kinds[len(c18BaseParams)] // TSUM
+		}
+		o := genOvr(r, &cp, kd.kind, kd.name, k == badAt, bool(cp.DAUERKULT))
 		if used[o.Key] {
 			continue
 		}
